@@ -33,7 +33,7 @@ import impl
 import md_units
 
 ID = 'C09'
-EXTRA_MODULES = ['Mistletoe.Proofs.MdRound', 'Mistletoe.Proofs.MdRoundBlocks', 'Mistletoe.Proofs.MdRoundCode', 'Mistletoe.Proofs.MdRoundLists2', 'Mistletoe.Proofs.MdRoundSetext', 'propsdriver']
+EXTRA_MODULES = ['Mistletoe.Proofs.MdRound', 'Mistletoe.Proofs.MdRoundBlocks', 'Mistletoe.Proofs.MdRoundCode', 'Mistletoe.Proofs.MdRoundLists2', 'Mistletoe.Proofs.MdRoundSetext', 'Mistletoe.Proofs.MdRoundEmph', 'propsdriver']
 RULE = ('documents from the tree generator (every block and inline construct, canonical and non-canonical spellings, nesting '
         'to depth 4; no character references, no escapes in destinations/titles, continuation lines indented < 4) and the 652 '
         'spec examples, x normalize_whitespace in {False, True}. Distinct by (document, option); non-trivial when the '
@@ -42,10 +42,11 @@ TRUSTED = ['meaning is compared as HtmlRenderer output plus Document.footnotes o
 ASSUMPTIONS = ['the generated domain excludes the input classes the property records as known findings; on the spec corpus '
                'the failing examples are listed individually in known_findings.json']
 PARTIAL = ['proved for the fragment: inert prose paragraphs, ATX headings `#..# text`, thematic breaks, fenced and indented code blocks, bullet and ordered lists in the renderer\'s normal form, '
-           'setext headings (top level) and HTML blocks of start condition 6 / 7 (Props/C09_Setext.lean), '
+           'setext headings (top level) and HTML blocks of start condition 6 / 7 (Props/C09_Setext.lean), one-line paragraphs with '
+           'emphasis / strong emphasis / backslash escapes of the C06 alphabet (Props/C09_Emph.lean), '
            'separated by single empty lines, inside any number of block quotes, no line limit (exact reproduction, idempotence, same '
            'meaning). Every other construct of the property (tables, lists outside the normal form, HTML blocks of the other kinds, link '
-           'definitions, every inline construct other than text and soft breaks) and every document NOT in normal form (clause 1 '
+           'definitions, the inline constructs other than text, soft breaks, emphasis, strong emphasis and escapes) and every document NOT in normal form (clause 1 '
            'and 2 on arbitrary spellings) is decided by the round-trip exploration on the implementation; the Markdown renderer '
            'model itself is tied to the code on all of those by the md.render units']
 
@@ -232,6 +233,33 @@ def units(ctx):
                     kind='depth%d' % d['depth'])
     ctx.notes.append('of %d generated documents with setext headings / HTML blocks %d satisfy the hypotheses of C09_setext_roundtrip_partial / '
                      'C09_quoted_html_roundtrip_partial (%d with a setext heading, %d with an HTML block)' % (len(docs), n_ok, n_sx, n_html))
+    # paragraphs with emphasis, strong emphasis and escapes (Props/C09_Emph.lean)
+    EW = ['a', 'foo', 'b c', '*a*', '**b**', '_c_', '__d__', '***e***', '*a **b** c*', '_x *y* z_', 'foo*bar*baz', 'snake_case', '2*3', '\\*', '\\_', '\\\\',
+          '*', '_', '**', 'x*', '*y', '"q"', "it's", 'é', '!', '(p)', 'a > b', '\\a', '*a', 'b*', '__', '*_a_*', '**a*', '_a*b_*']
+    def block4():
+        if rng.random() < 0.55:
+            return {'k': 'emph', 's': ' '.join(rng.choice(EW) for _ in range(rng.randint(1, 6)))}
+        return frag_block2(rng)
+    docs = [{'op': 'c09.emph', 'blocks': [block4() for _ in range(rng.randint(1, 4))], 'depth': rng.choice([0, 0, 0, 1, 2])}
+            for _ in range(ctx.budget(2000, 20000))]
+    res = common.driver_batch(docs, binary=common.PROPS_DRIVER)
+    n_ok = n_em = 0
+    for i, (d, r) in enumerate(zip(docs, res)):
+        if not (isinstance(r, dict) and r.get('ok')):
+            continue
+        n_ok += 1
+        n_em += any(b['k'] == 'emph' and any(c in b['s'] for c in '*_\\') for b in d['blocks'])
+        text = r['text']
+        nw = bool(i % 2)
+        try:
+            out = md(text, nw)
+            real = {'md': out, 'same_meaning': meaning(out) == meaning(text)}
+        except Exception as e:
+            real = {'raises': type(e).__name__}
+        ctx.compare('c09.theorem.emph', {'text': text, 'normalize_whitespace': nw}, {'md': text, 'same_meaning': True}, real,
+                    kind='depth%d' % d['depth'])
+    ctx.notes.append('of %d generated documents with inline markup %d satisfy the hypotheses of C09_emphasis_blocks_roundtrip_partial '
+                     '(%d with a delimiter run or an escape)' % (len(docs), n_ok, n_em))
     # the fragment with lists (Props/C09_Lists.lean)
     def mb(depth):
         r = rng.random()
